@@ -139,7 +139,7 @@ def drive(tier):
 
 def run(tier):
     rep = Report("C20", tier)
-    rep.add_mc("MC_Bloom", vlib.run_mc("MC_Bloom"))
+    rep.add_mc("MC_Bloom", vlib.run_mc("MC_Bloom", cfg="MC_Bloom" if tier == "quick" else "MC_Bloom_thorough"))
     recs = drive(tier)
     for x in recs:
         x["_cost"] = 300 + len(x["out"].get("data", [])) * 6
